@@ -278,6 +278,7 @@ func c15Custom(t *testing.T, sc *world.Scenario, out *Outcome) {
 	out.Hazards = s.Hazards
 	out.Ops = len(w.Recs)
 	out.Fired = w.KV.Fired
+	reportLockLeaks("C15", w, out)
 	out.SiteHits = s.SiteHits
 	out.StateHash = stateHash(w)
 	out.Trace = s.Trace
